@@ -1,26 +1,44 @@
 /-
   Vt.Props.C04write — C04, the `std::io::Write` clause beyond `write`: the provided methods `write_all` and
   `write_vectored` (the crate overrides neither), as the correspondence check drives them (ops `WA`, `WV`).
+  The model (`Parser.writeAll`, `writeVectored`, `writeVectoredAll` in Vt/Model/Perform.lean) has the LOOPS of the
+  provided methods / of the caller, advancing by the count `write` reports; that they come down to `process` calls is
+  proved here from `write` reporting the whole buffer (`C04.write_eq_process`).
 
-  * `writeAll_eq_process`   : `write_all(buf)` is `process(buf)` (no call at all for an empty buffer — which `process`
-                              treats as a no-op when no UTF-8 bytes are pending: `C04.process_nil`).
+  * `writeAll_eq_process`   : `write_all(buf)` is one `process(buf)` (no call at all for an empty buffer).
   * `writeVectored_first`   : `write_vectored` hands exactly the first non-empty slice to `process` and reports its length.
-  * `writeVectoredAll_eq`   : offering the remaining slices again until all are taken is one `process` call per non-empty
-                              slice, in order — so by `C04b.process_chunks` / `C04cut.process_chunks_cut` it equals
-                              `process` of the concatenation whenever no cut is a losing one (finding F10).
+  * `writeVectoredAll_eq`   : offering what is left again until all is taken is one `process` call per non-empty slice, in
+                              order — so by `C04cut.process_chunks_cut` it equals `process` of the concatenation whenever
+                              no slice boundary is a losing cut (finding F10) and no UTF-8 bytes are pending at the start.
 -/
 import Vt.Props.C04cut
 namespace Vt.C04
 open Vt
 
+theorem write_ok {W : Nat → Option Nat} {cb : CbPolicy} {p p' : Parser} {bytes : List Nat}
+    (h : p.process W cb bytes = .ok p') : p.write W cb bytes = .ok (p', bytes.length) := by
+  simp [Parser.write, h, bind, Except.bind, pure, Except.pure]
+
+theorem write_err {W : Nat → Option Nat} {cb : CbPolicy} {p : Parser} {bytes : List Nat} {e : Panic}
+    (h : p.process W cb bytes = .error e) : p.write W cb bytes = .error e := by
+  simp [Parser.write, h, bind, Except.bind]
+
 theorem writeAll_eq_process (W : Nat → Option Nat) (cb : CbPolicy) (p : Parser) (bytes : List Nat) (hne : bytes ≠ []) :
     p.writeAll W cb bytes = p.process W cb bytes := by
-  unfold Parser.writeAll Parser.write
   cases bytes with
   | nil => exact absurd rfl hne
   | cons b bs =>
-    simp only [List.isEmpty_cons, Bool.false_eq_true, ↓reduceIte]
-    cases h : p.process W cb (b :: bs) <;> simp [h, bind, Except.bind, pure, Except.pure]
+    unfold Parser.writeAll
+    simp only [List.length_cons, Parser.writeAllLoop, List.isEmpty_cons, Bool.false_eq_true, ↓reduceIte]
+    cases h : p.process W cb (b :: bs) with
+    | error e => simp [write_err h, bind, Except.bind]
+    | ok p1 =>
+      simp only [write_ok h, bind, Except.bind, List.length_cons]
+      have : ((bs.length + 1 == 0) = false) := by simp
+      simp only [this, Bool.false_eq_true, ↓reduceIte]
+      have hd : (b :: bs).drop (bs.length + 1) = [] := by simp
+      rw [hd]
+      cases bs <;> simp [Parser.writeAllLoop, pure, Except.pure]
 
 theorem writeAll_nil (W : Nat → Option Nat) (cb : CbPolicy) (p : Parser) : p.writeAll W cb [] = .ok p := rfl
 
@@ -35,25 +53,76 @@ theorem writeVectored_first (W : Nat → Option Nat) (cb : CbPolicy) (p : Parser
   rw [this]
   rfl
 
-/-- one `process` call per non-empty slice, in order -/
-theorem writeVectoredAll_eq (W : Nat → Option Nat) (cb : CbPolicy) : ∀ (slices : List (List Nat)) (p : Parser),
-    p.writeVectoredAll W cb slices = (slices.filter (fun s => !s.isEmpty)).foldlM (fun p c => p.process W cb c) p
-  | [], p => rfl
-  | s :: rest, p => by
-    unfold Parser.writeVectoredAll
-    by_cases hs : s.isEmpty = true
-    · simp only [hs, ↓reduceIte, List.filter_cons, Bool.not_true, Bool.false_eq_true]
-      exact writeVectoredAll_eq W cb rest p
-    · have hne : s ≠ [] := by intro h; subst h; simp at hs
-      simp only [hs, Bool.false_eq_true, ↓reduceIte, List.filter_cons, Bool.not_false, List.foldlM_cons]
-      rw [writeVectored_first W cb p s rest hne]
-      cases h : p.process W cb s with
-      | error e => simp [bind, Except.bind]
-      | ok p1 =>
-        simp only [bind, Except.bind, pure, Except.pure]
-        exact writeVectoredAll_eq W cb rest p1
+/-- leading empty slices do not matter to `write_vectored` -/
+theorem writeVectored_skip (W : Nat → Option Nat) (cb : CbPolicy) (p : Parser) (rest : List (List Nat)) :
+    p.writeVectored W cb ([] :: rest) = p.writeVectored W cb rest := by
+  simp [Parser.writeVectored, List.find?]
 
-/-- hence, when no slice boundary is a losing cut (F10), the vectored write equals one `process` of everything -/
+theorem advanceSlices_nil_cons (rest : List (List Nat)) (n : Nat) :
+    Parser.advanceSlices ([] :: rest) n = Parser.advanceSlices rest n := by
+  simp [Parser.advanceSlices]
+
+theorem all_empty_cons_nil (rest : List (List Nat)) :
+    (([] : List Nat) :: rest).all (fun s => s.isEmpty) = rest.all (fun s => s.isEmpty) := by simp
+
+/-- after a whole first slice has been taken, what is left has the same non-empty slices as the rest -/
+theorem filter_advance_full (s : List Nat) (rest : List (List Nat)) :
+    (Parser.advanceSlices (s :: rest) s.length).filter (fun t => !t.isEmpty) = rest.filter (fun t => !t.isEmpty) := by
+  simp only [Parser.advanceSlices, Nat.lt_irrefl, ↓reduceIte, Nat.sub_self]
+  induction rest with
+  | nil => rfl
+  | cons t ts ih =>
+    cases t with
+    | nil => simpa [Parser.advanceSlices] using ih
+    | cons a as => simp [Parser.advanceSlices]
+
+theorem sum_advance_full (s : List Nat) (rest : List (List Nat)) :
+    ((Parser.advanceSlices (s :: rest) s.length).map List.length).sum = (rest.map List.length).sum := by
+  simp only [Parser.advanceSlices, Nat.lt_irrefl, ↓reduceIte, Nat.sub_self]
+  induction rest with
+  | nil => rfl
+  | cons t ts ih =>
+    cases t with
+    | nil => simpa [Parser.advanceSlices] using ih
+    | cons a as => simp [Parser.advanceSlices]
+
+/-- the loop, with enough fuel, is one `process` call per non-empty slice, in order -/
+theorem writeVectoredAllLoop_eq (W : Nat → Option Nat) (cb : CbPolicy) : ∀ (fuel : Nat) (slices : List (List Nat)) (p : Parser),
+    (slices.map List.length).sum < fuel →
+    Parser.writeVectoredAllLoop W cb fuel p slices =
+      (slices.filter (fun s => !s.isEmpty)).foldlM (fun p c => p.process W cb c) p
+  | 0, _, _, h => absurd h (Nat.not_lt_zero _)
+  | fuel + 1, [], p, _ => by simp [Parser.writeVectoredAllLoop, pure, Except.pure]
+  | fuel + 1, [] :: rest, p, h => by
+    have ih := writeVectoredAllLoop_eq W cb (fuel + 1) rest p (by simpa using h)
+    simp only [Parser.writeVectoredAllLoop, all_empty_cons_nil, writeVectored_skip, advanceSlices_nil_cons,
+      List.filter_cons, List.isEmpty_nil, Bool.not_true, Bool.false_eq_true, ↓reduceIte] at ih ⊢
+    exact ih
+  | fuel + 1, (a :: as) :: rest, p, h => by
+    have hne : (a :: as) ≠ [] := by simp
+    simp only [Parser.writeVectoredAllLoop, List.all_cons, List.isEmpty_cons, Bool.false_and, Bool.false_eq_true,
+      ↓reduceIte, writeVectored_first W cb p (a :: as) rest hne, List.filter_cons, Bool.not_false, List.foldlM_cons]
+    cases hp : p.process W cb (a :: as) with
+    | error e => simp [bind, Except.bind]
+    | ok p1 =>
+      simp only [bind, Except.bind, pure, Except.pure, List.length_cons]
+      have : ((as.length + 1 == 0) = false) := by simp
+      simp only [this, Bool.false_eq_true, ↓reduceIte]
+      have hlen : as.length + 1 = (a :: as).length := rfl
+      rw [hlen]
+      have hsum : ((Parser.advanceSlices ((a :: as) :: rest) (a :: as).length).map List.length).sum < fuel := by
+        rw [sum_advance_full]
+        simp only [List.map_cons, List.sum_cons, List.length_cons] at h
+        omega
+      rw [writeVectoredAllLoop_eq W cb fuel _ p1 hsum, filter_advance_full]
+
+/-- one `process` call per non-empty slice, in order -/
+theorem writeVectoredAll_eq (W : Nat → Option Nat) (cb : CbPolicy) (slices : List (List Nat)) (p : Parser) :
+    p.writeVectoredAll W cb slices = (slices.filter (fun s => !s.isEmpty)).foldlM (fun p c => p.process W cb c) p :=
+  writeVectoredAllLoop_eq W cb _ slices p (Nat.lt_succ_self _)
+
+/-- hence, when no UTF-8 bytes are pending at the start and no slice boundary is a losing cut (F10), the vectored write
+equals one `process` of everything -/
 theorem writeVectoredAll_eq_process (W : Nat → Option Nat) (cb : CbPolicy) (slices : List (List Nat)) (p : Parser)
     (hc : p.vte.carry = [])
     (h : ∀ i (hi : i < (slices.filter (fun s => !s.isEmpty)).length),
